@@ -2,6 +2,7 @@ import DimodProofs.CqmLiftMore
 import DimodProofs.CqmHistory
 import DimodProofs.CqmHistory2
 import DimodProofs.CqmHistory3
+import DimodProofs.CqmHistory4
 
 /-! # C05 — a CQM keeps every expression attached to the right variables
 
@@ -779,6 +780,54 @@ example :
     (specRunFull (absCqm demo) ops).isSome = true
     ∧ (∀ k, k < ops.length → ((demo.run (ops.take k)).step (ops.getD k .deepcopy)).2 = none)
     ∧ (demo.run ops).labels = [.str "y", .str "i"] := by
+  decide +kernel
+
+/-- **The history theorem, every operation, no side condition on the specification.**  `specRel` is the specification's step
+    as a relation on lists of label-keyed polynomials: for every operation but `flip_variable` it is the FUNCTION
+    `specStepFull` (`specRel s op s' ↔ specStepFull s op = some s'`, by definition); for `flip_variable(v)` it is `s ↦ −s` in
+    every expression (SPIN) or `x ↦ 1 − x` in every expression followed by clearing the discrete mark of some constraints that
+    had it (BINARY — which ones is `is_discrete`, an observation of the stored interactions) and nothing else.
+    From ANY reachable state, along ANY list of public operations whose calls return normally (model arguments well formed,
+    without BINARY/SPIN self-loops — true of every BQM / QM), the abstraction of the CQM after the history is reached from the
+    abstraction before it by a run of that specification: variables with their own types and bounds, the objective and every
+    constraint with exactly the terms, private order, sense, right-hand side, weight, penalty type and (up to the flip clause)
+    mark that the same sequence produces on a plain list of polynomials. -/
+theorem history_refines_every_op (pre ops : List Cqm.Op) (hpre : ∀ op ∈ pre, OpOK op) (hops : ∀ op ∈ ops, OpOK2 op)
+    (hsucc : Succeeds (({} : Cqm).run pre) ops) :
+    RelRun (absCqm (({} : Cqm).run pre)) ops (absCqm (({} : Cqm).run (pre ++ ops))) := by
+  have hinv : RefInv (({} : Cqm).run pre) :=
+    ⟨history_inv pre hpre, history_labels pre, history_keysym pre hpre, history_sorted pre hpre⟩
+  have : ({} : Cqm).run (pre ++ ops) = (({} : Cqm).run pre).run ops := by
+    unfold Cqm.run; rw [List.foldl_append]
+  rw [this]
+  exact relRun_refines ops hinv hops hsucc
+
+/-- the flip clause changes no term: clearing marks keeps labels, types, bounds, the objective, the number and labels of the
+    constraints and, constraint by constraint, the polynomial, sense, rhs, weight and penalty type; a mark is only ever cleared,
+    never set -/
+theorem clearsSomeMarks_keeps_terms (s s' : LCqm) (h : s.ClearsSomeMarks s') :
+    s'.labels = s.labels ∧ s'.info = s.info ∧ s'.obj = s.obj ∧ s'.cons.length = s.cons.length
+    ∧ ∀ k (hk : k < s.cons.length) (hk' : k < s'.cons.length),
+        (s'.cons[k]).1 = (s.cons[k]).1 ∧ (s'.cons[k]).2.p = (s.cons[k]).2.p ∧ (s'.cons[k]).2.sense = (s.cons[k]).2.sense
+        ∧ (s'.cons[k]).2.rhs = (s.cons[k]).2.rhs ∧ (s'.cons[k]).2.weight = (s.cons[k]).2.weight
+        ∧ (s'.cons[k]).2.quadPenalty = (s.cons[k]).2.quadPenalty
+        ∧ ((s'.cons[k]).2.discrete = true → (s.cons[k]).2.discrete = true) := by
+  obtain ⟨h1, h2, h3, h4⟩ := h
+  refine ⟨h1, h2, h3, h4.length_eq.symm, fun k hk hk' => ?_⟩
+  have := List.forall₂_iff_get.mp h4
+  obtain ⟨hl, hr⟩ := this.2 k hk hk'
+  simp only [List.get_eq_getElem] at hl hr
+  rcases hr with hr | ⟨hd, hr⟩
+  · rw [hl, hr]; exact ⟨rfl, rfl, rfl, rfl, rfl, rfl, id⟩
+  · rw [hl, hr]; exact ⟨rfl, rfl, rfl, rfl, rfl, rfl, fun hf => by simp at hf⟩
+
+/-- not vacuous: a history through a BINARY flip of a variable of a discrete constraint -/
+example :
+    let ops : List Cqm.Op := [.addDiscreteVars [.str "x", .str "y"] (.str "d") true, .flipVariable (.str "x"),
+                              .relabelVariables [(.str "x", .str "y"), (.str "y", .str "x")], .flipVariable (.str "y")]
+    (∀ k, k < ops.length → ((demo.run (ops.take k)).step (ops.getD k .deepcopy)).2 = none)
+    ∧ ((demo.run (ops.take 1)).cons.map (·.discrete)) = [false, true]
+    ∧ ((demo.run ops).cons.map (·.discrete)) = [false, false] := by
   decide +kernel
 
 end C05
